@@ -555,12 +555,586 @@ def correspondence(ctx):
     decompose_correspondence(ctx)
 
 
+# ==========================================================================================
+# Failing-input search: the property's own predicate on the implementation, real backends.
+#
+# search spec: {"n": n, "backend": b, "segs": [[cmd...], [cmd...]], "child": bool, "args": {...}}
+#   cmd = [name, [param...], [modes], dagger, extra]      extra: {"select": v} | {"same_as": [seg, idx]} | {}
+#   param = number | {"re":..,"im":..} | {"m": k, "c": scale} (c * q[k].par) | {"f": name} (free parameter)
+
+BACKENDS = {"gaussian": {}, "fock": {"cutoff_dim": 5}, "bosonic": {}}
+TOL = {"gaussian": 1e-6, "fock": 1e-6, "bosonic": 1e-6}   # homodyne post-selection is only accurate to ~1e-7
+
+
+def _s_param(p, prog):
+    if isinstance(p, dict):
+        if "m" in p:
+            return p["c"] * prog.reg_refs[p["m"]].par
+        if "f" in p:
+            return prog.params(p["f"])
+        if "re" in p:
+            return complex(p["re"], p["im"])
+    return p
+
+
+def s_build(prog, cmds, cache, seg):
+    with prog.context as q:
+        for idx, (name, params, modes, dagger, extra) in enumerate(cmds):
+            if "same_as" in extra and extra["same_as"] in cache:
+                op = cache[extra["same_as"]]
+            else:
+                cls = getattr(ops, name)
+                ps = [_s_param(x, prog) for x in params]
+                if name.startswith("Measure"):
+                    op = cls(*ps, select=extra.get("select"))
+                else:
+                    op = cls(*ps)
+                if "oid" in extra:
+                    cache[extra["oid"]] = op
+            (op.H if dagger else op) | tuple(q[m] for m in modes)
+    return prog
+
+
+def state_sig(res, backend):
+    st = res.state
+    if backend == "gaussian":
+        return [np.array(st.means()), np.array(st.cov())]
+    if backend == "fock":
+        return [np.array(st.dm())]
+    return [np.array(st.weights()), np.array(st.means()), np.array(st.covs())]
+
+
+def same_sig(a, b, tol):
+    if a[0] != b[0]:
+        return False
+    if a[0] == "err":
+        return a[1] == b[1]
+    if len(a[1]) != len(b[1]):
+        return False
+    for x, y in zip(a[1], b[1]):
+        if x.shape != y.shape or not np.allclose(x, y, atol=tol, rtol=0):
+            return False
+    return True
+
+
+def attempt(fn, backend):
+    try:
+        res = fn()
+        return ("ok", state_sig(res, backend))
+    except Exception as e:  # noqa: BLE001
+        return ("err", type(e).__name__)
+
+
+def brief(sig):
+    return sig[0] if sig[0] == "ok" else "err:" + sig[1]
+
+
+def new_engine(backend):
+    return sf.Engine(backend, backend_options=dict(BACKENDS[backend]))
+
+
+def owner_ok(prog):
+    """Every measured parameter of the program's ops refers to the program's own RegRef."""
+    from strawberryfields.parameters import MeasuredParameter
+    import sympy
+    for c in prog.circuit:
+        for x in c.op.p:
+            if isinstance(x, sympy.Basic):
+                for a in x.atoms(MeasuredParameter):
+                    if prog.reg_refs.get(a.regref.ind) is not a.regref:
+                        return False
+    return True
+
+
+# ---- generators
+S_GATES = ["Dgate", "Xgate", "Zgate", "Sgate", "Rgate", "Pgate", "Fouriergate", "BSgate", "MZgate", "S2gate", "CXgate", "CZgate"]
+
+
+def s_random_cmds(rng, n, k, backend, seg):
+    names = list(S_GATES) + ["LossChannel", "Coherent", "Squeezed", "Vacuum"]
+    if backend == "fock":
+        names += ["Kgate", "Fock"]
+    out = []
+    for i in range(k):
+        if out and rng.random() < 0.15:
+            j = rng.randrange(len(out))
+            if out[j][0] in sfgen.GAUSSIAN_GATES or out[j][0] in sfgen.NONGAUSS:
+                nm = len(out[j][2])
+                out.append([out[j][0], out[j][1], rng.sample(range(n), nm), rng.random() < 0.5, {"same_as": out[j][4].get("oid", out[j][4].get("same_as"))}])
+                continue
+        c = sfgen.random_cmd(rng, n, names, dagger_prob=0.35, exact=rng.random() < 0.3)
+        if backend == "fock":
+            c[1] = [x if not isinstance(x, float) else max(-0.5, min(0.5, x)) if c[0] in ("Sgate", "S2gate", "Pgate", "CXgate", "CZgate", "Squeezed") else x for x in c[1]]
+        out.append(c + [{"oid": "s%d_%d" % (seg, i)}])
+    return out
+
+
+def ff_cmd(rng, n, k, dagger=None):
+    name = rng.choice(["Dgate", "Rgate", "Sgate", "Xgate"])
+    c = rng.choice([0.5, -0.5, 1.0, 0.25])
+    params = {"Dgate": [{"m": k, "c": c}, 0.3], "Rgate": [{"m": k, "c": c}], "Sgate": [{"m": k, "c": c * 0.5}, 0.0],
+              "Xgate": [{"m": k, "c": c}]}[name]
+    tgt = rng.randrange(n)
+    return [name, params, [tgt], bool(rng.random() < 0.4) if dagger is None else dagger, {}]
+
+
+def meas_cmd(rng, mode):
+    return ["MeasureHomodyne", [rng.choice([0.0, 0.0, 1.5707963267948966, 0.4])], [mode], False, {"select": rng.choice([0.25, -0.5, 0.8, 0.0])}]
+
+
+def gen_compose(rng, backend):
+    n = rng.randint(1, 3 if backend != "fock" else 2)
+    seg1 = s_random_cmds(rng, n, rng.randint(0, 4), backend, 0)
+    seg2 = s_random_cmds(rng, n, rng.randint(0, 4), backend, 1)
+    feat = set()
+    measured = []
+    if rng.random() < 0.55:
+        for m in rng.sample(range(n), rng.randint(1, n)):
+            seg1.append(meas_cmd(rng, m))
+            measured.append(m)
+        if rng.random() < 0.3:
+            seg1.append(ff_cmd(rng, n, rng.choice(measured)))
+            feat.add("ff-inside")
+    if measured and rng.random() < 0.6:
+        k = rng.choice(measured)
+        seg2.insert(rng.randint(0, len(seg2)), ff_cmd(rng, n, k))
+        feat.add("ff-cross")
+        if any(isinstance(x, dict) and x.get("m") == k for c in seg1 for x in c[1]):
+            feat.add("ff-both")
+    elif rng.random() < 0.08:
+        un = [m for m in range(n) if m not in measured]
+        if un:
+            seg2.append(ff_cmd(rng, n, rng.choice(un)))
+            feat.add("unmeasured-use")
+    return {"n": n, "backend": backend, "segs": [seg1, seg2], "child": rng.random() < 0.6, "feat": sorted(feat)}
+
+
+def compose_patterns(spec):
+    """Run the three call patterns; returns dict pattern -> signature (+ 'retarget' flag)."""
+    n, backend = spec["n"], spec["backend"]
+    out = {}
+
+    def two():
+        cache = {}
+        p1 = s_build(sf.Program(n), spec["segs"][0], cache, 0)
+        p2 = s_build(sf.Program(p1) if spec["child"] else sf.Program(n), spec["segs"][1], cache, 1)
+        return p1, p2
+
+    p1, p2 = two()
+    out["retarget"] = not (owner_ok(p1) and owner_ok(p2))
+    eng = new_engine(backend)
+    out["A"] = attempt(lambda: eng.run([p1, p2]), backend)
+    p1, p2 = two()
+    eng = new_engine(backend)
+
+    def seq():
+        eng.run(p1)
+        return eng.run(p2)
+    out["B"] = attempt(seq, backend)
+    cache = {}
+    pc = sf.Program(n)
+    s_build(pc, spec["segs"][0], cache, 0)
+    s_build(pc, spec["segs"][1], cache, 1)
+    eng = new_engine(backend)
+    out["C"] = attempt(lambda: eng.run(pc), backend)
+    if backend == "bosonic" and not same_sig(out["A"], out["C"], TOL[backend]):
+        p2 = s_build(sf.Program(n), spec["segs"][1], {}, 1)
+        eng = new_engine(backend)
+        out["D"] = attempt(lambda: eng.run(p2), backend)      # the second segment alone, from vacuum
+    return out
+
+
+def compose_verdict(spec, out):
+    """None if the three patterns agree, else (signature, text)."""
+    tol = TOL[spec["backend"]]
+    if out["retarget"]:
+        return ("params:measured-parameter-retargeted",
+                "building the second program re-targeted the first program's measured parameters (q[k].par of two programs is one sympy object)")
+    ab = same_sig(out["A"], out["B"], tol)
+    ac = same_sig(out["A"], out["C"], tol)
+    if ab and ac:
+        return None
+    feat = spec.get("feat", [])
+    if "D" in out and ab and out["A"][0] == "ok" and same_sig(out["A"], out["D"], tol):
+        return ("compose:bosonic:second-segment-restarts-from-vacuum",
+                "on the bosonic backend run([p1,p2]) gives the state of p2 alone: BosonicBackend.run_prog calls init_circuit/begin_circuit for every segment")
+    cls = "feedforward" if "ff-cross" in feat else "unmeasured-use" if "unmeasured-use" in feat else "plain"
+    if not ab:
+        return ("compose:%s:one-call-vs-two-calls" % cls, "run([p1,p2]) -> %s but run(p1);run(p2) -> %s" % (brief(out["A"]), brief(out["B"])))
+    if out["A"][0] == "err" and out["C"][0] == "ok":
+        how = "two-segments-raise"
+    elif out["A"][0] == "ok" and out["C"][0] == "err":
+        how = "concatenated-raises-two-segments-run"
+    elif out["A"][0] == "ok":
+        how = "state-differs"
+    else:
+        how = "different-exceptions"
+    return ("compose:%s:%s" % (cls, how), "run([p1,p2]) -> %s, run(p1+p2) -> %s on %s" % (brief(out["A"]), brief(out["C"]), spec["backend"]))
+
+
+# ---- reset vs fresh
+def gen_reset(rng, backend):
+    n = rng.randint(1, 3 if backend != "fock" else 2)
+    hist = []
+    for _ in range(rng.randint(1, 2)):
+        cm = s_random_cmds(rng, n, rng.randint(1, 4), backend, 0)
+        if rng.random() < 0.4:
+            m = rng.randrange(n)
+            cm.append(meas_cmd(rng, m))
+            if rng.random() < 0.5:
+                cm.append(ff_cmd(rng, n, m))
+        if rng.random() < 0.15:
+            cm.append(["Dgate", [{"f": "a"}, 0.0], [0], True, {}])   # unbound -> this run raises
+        hist.append(cm)
+    q = s_random_cmds(rng, n, rng.randint(1, 4), backend, 0)
+    if rng.random() < 0.4:
+        m = rng.randrange(n)
+        q.append(meas_cmd(rng, m))
+        q.append(ff_cmd(rng, n, m))
+    opts = None
+    if backend == "fock" and rng.random() < 0.4:
+        opts = {"cutoff_dim": rng.choice([4, 6])}
+    return {"n": n, "backend": backend, "hist": hist, "q": q, "reset_opts": opts, "same_call": rng.random() < 0.3}
+
+
+def reset_verdict(spec):
+    n, backend = spec["n"], spec["backend"]
+    eng = new_engine(backend)
+    progs = []
+    if spec["same_call"]:
+        prev = None
+        for cm in spec["hist"]:
+            prev = s_build(sf.Program(n) if prev is None else sf.Program(prev), cm, {}, 0)
+            progs.append(prev)
+        try:
+            eng.run(progs)
+        except Exception:  # noqa: BLE001
+            pass
+    else:
+        prev = None
+        for cm in spec["hist"]:
+            prev = s_build(sf.Program(n) if prev is None else sf.Program(prev), cm, {}, 0)
+            progs.append(prev)
+            try:
+                eng.run(prev)
+            except Exception:  # noqa: BLE001
+                pass
+    try:
+        if spec["reset_opts"]:
+            eng.reset(dict(spec["reset_opts"]))
+        else:
+            eng.reset()
+    except Exception as e:  # noqa: BLE001
+        return ("reset:raises", "reset raised %s" % type(e).__name__)
+    if eng.run_progs or eng.samples is not None:
+        return ("reset:history-not-cleared", "run_progs=%d samples=%r after reset" % (len(eng.run_progs), eng.samples))
+    for p in progs:
+        if p in eng.run_progs:
+            continue
+    q1 = s_build(sf.Program(n), spec["q"], {}, 0)
+    a = attempt(lambda: eng.run(q1), backend)
+    eng2 = sf.Engine(backend, backend_options={**BACKENDS[backend], **(spec["reset_opts"] or {})})
+    q2 = s_build(sf.Program(n), spec["q"], {}, 0)
+    b = attempt(lambda: eng2.run(q2), backend)
+    if not same_sig(a, b, TOL[backend]):
+        return ("reset:differs-from-fresh", "after reset -> %s, fresh engine -> %s on %s" % (brief(a), brief(b), backend))
+    return None
+
+
+# ---- user programs untouched
+def fingerprint(prog):
+    import sympy
+    from strawberryfields.parameters import MeasuredParameter, FreeParameter
+    ids = {}
+
+    def oid(o):
+        return ids.setdefault(id(o), len(ids))
+
+    def par(x):
+        if isinstance(x, sympy.Basic):
+            own = [prog.reg_refs.get(a.regref.ind) is a.regref for a in sorted(x.atoms(MeasuredParameter), key=str)]
+            return ["sym", sympy.srepr(x), own]
+        if isinstance(x, np.ndarray):
+            return ["arr", x.tolist()]
+        return ["num", repr(x)]
+
+    circ = []
+    for c in prog.circuit:
+        op = c.op
+        circ.append({"cmd": oid(c), "op": oid(op), "plist": oid(op.p), "cls": type(op).__name__, "p": [par(x) for x in op.p],
+                     "dagger": getattr(op, "dagger", None), "select": repr(getattr(op, "select", None)),
+                     "reg": [r.ind for r in c.reg], "regown": [prog.reg_refs.get(r.ind) is r for r in c.reg]})
+    return {
+        "circuit_id": 0, "circ": circ,
+        "regs": sorted((k, r.ind, r.active) for k, r in prog.reg_refs.items()),
+        "init_regs": sorted((k, r.ind, r.active) for k, r in prog.init_reg_refs.items()),
+        "free": sorted((k, repr(v.default)) for k, v in prog.free_params.items()),
+        "run_options": repr(sorted(prog.run_options.items())), "backend_options": repr(sorted(prog.backend_options.items())),
+        "name": prog.name, "target": prog.target, "n": prog.init_num_subsystems,
+    }
+
+
+def fp_diff(a, b):
+    for k in a:
+        if k == "circ":
+            if len(a[k]) != len(b[k]):
+                return "circuit-length"
+            for x, y in zip(a[k], b[k]):
+                for f in x:
+                    if x[f] != y[f]:
+                        return "op." + f
+        elif a[k] != b[k]:
+            return k
+    return None
+
+
+def gen_untouched(rng, backend):
+    n = rng.randint(1, 3 if backend != "fock" else 2)
+    cm = s_random_cmds(rng, n, rng.randint(1, 5), backend, 0)
+    feat = set()
+    args = {}
+    if rng.random() < 0.4:
+        m = rng.randrange(n)
+        cm.append(meas_cmd(rng, m))
+        cm.append(ff_cmd(rng, n, m))
+        feat.add("ff")
+    fail = None
+    r = rng.random()
+    if r < 0.25:
+        name = rng.choice(["Dgate", "Rgate", "Sgate", "BSgate"] if n > 1 else ["Dgate", "Rgate", "Sgate"])
+        nm = 2 if name == "BSgate" else 1
+        ps = {"Dgate": [{"f": "a"}, 0.2], "Rgate": [{"f": "a"}], "Sgate": [{"f": "a"}, 0.0], "BSgate": [{"f": "a"}, 0.1]}[name]
+        cm.insert(rng.randint(0, len(cm)), [name, ps, rng.sample(range(n), nm), rng.random() < 0.6, {}])
+        args = {"a": rng.choice([0.4, -0.3, 0.7])}
+        fail = "unbound"
+        feat.add("free")
+    elif r < 0.33 and n > 1:
+        un = rng.randrange(n)
+        cm.insert(0, ff_cmd(rng, n, un, dagger=rng.random() < 0.7))     # used before any measurement: raises every time
+        fail = "unmeasured"
+    elif r < 0.38:
+        cm.append(["Dgate", [{"re": 0.3, "im": 0.2}, 0.0], [0], rng.random() < 0.7, {}])   # complex r: _apply raises ValueError
+        fail = "complex"
+    co = rng.choice([None, None, {"optimize": False}, {"warn_connected": False}, {"optimize": True}])
+    return {"n": n, "backend": backend, "cmds": cm, "args": args, "fail": fail, "compile_options": co,
+            "precompile": rng.random() < 0.3, "sibling": "ff" in feat and rng.random() < 0.35, "feat": sorted(feat)}
+
+
+def untouched_verdicts(spec):
+    """Yields (signature, text) for every way the user's program was altered / did not reproduce."""
+    n, backend, tol = spec["n"], spec["backend"], TOL[spec["backend"]]
+    out = []
+    P = s_build(sf.Program(n), spec["cmds"], {}, 0)
+    fp0 = fingerprint(P)
+    if spec["precompile"]:
+        try:
+            c1 = P.compile(compiler=backend)
+            d = fp_diff(fp0, fingerprint(P))
+            if d:
+                out.append(("untouched:compile:" + d, "Program.compile changed the user's program (%s)" % d))
+            c2 = P.compile(compiler=backend)
+            d = fp_diff(fingerprint(c1), fingerprint(c2))
+            if d and d not in ("op.cmd", "op.op", "op.plist"):
+                out.append(("compile:twice-differs:" + d, "compiling the same program twice gives different circuits (%s)" % d))
+        except Exception as e:  # noqa: BLE001
+            out.append(("compile:raises:" + type(e).__name__, "Program.compile raised %r" % e))
+            c1 = None
+        if not spec["fail"] and c1 is not None:
+            x = attempt(lambda: new_engine(backend).run(P, args=dict(spec["args"])), backend)
+            y = attempt(lambda: new_engine(backend).run(c1, args=dict(spec["args"])), backend)
+            if not same_sig(x, y, tol):
+                sig = "compile:run-of-compiled-program-raises:" + y[1] if (x[0] == "ok" and y[0] == "err") else "compile:run-of-compiled-program-differs"
+                out.append((sig, "running the program -> %s, running its compiled copy -> %s" % (brief(x), brief(y))))
+    raised = False
+    if spec["fail"] == "unbound":
+        try:
+            new_engine(backend).run(P)
+        except Exception:  # noqa: BLE001
+            raised = True
+        d = fp_diff(fp0, fingerprint(P))
+        if d:
+            out.append(("apply:p0-not-restored-after-exception" if d == "op.p" else "untouched:failed-run:" + d,
+                        "a run that raised (unbound free parameter) left the user's program changed (%s)" % d))
+    if spec["sibling"]:
+        s_build(sf.Program(n), spec["cmds"], {}, 0)      # an unrelated program built from the same text, never run
+        d = fp_diff(fp0, fingerprint(P))
+        if d:
+            out.append(("params:measured-parameter-retargeted" if d == "op.p" else "untouched:sibling:" + d,
+                        "constructing another program changed this program's measured parameters (%s)" % d))
+            return out, fp0
+    co = None if spec["compile_options"] is None else dict(spec["compile_options"])
+    co_before = copy.deepcopy(co)
+    a = attempt(lambda: new_engine(backend).run(P, args=dict(spec["args"]), compile_options=co), backend)
+    if co != co_before:
+        out.append(("run:compile_options-mutated", "Engine.run changed the caller's compile_options dict: %r -> %r" % (co_before, co)))
+    d = fp_diff(fp0, fingerprint(P))
+    if d and not (raised and d == "op.p"):
+        sig = "apply:p0-not-restored-after-exception" if (d == "op.p" and a[0] == "err") else "untouched:run:" + d
+        out.append((sig, "Engine.run (outcome %s) changed the user's program (%s)" % (brief(a), d)))
+    b = attempt(lambda: new_engine(backend).run(P, args=dict(spec["args"])), backend)
+    if not same_sig(a, b, tol):
+        out.append(("rerun:differs" + (":after-exception" if a[0] == "err" else ""), "running the same Program object again: %s then %s (or a different state)" % (brief(a), brief(b))))
+    P2 = s_build(sf.Program(n), spec["cmds"], {}, 0)
+    c = attempt(lambda: new_engine(backend).run(P2, args=dict(spec["args"])), backend)
+    if not same_sig(b, c, tol):
+        out.append(("rerun:differs-from-fresh-program" + (":after-exception" if raised or a[0] == "err" else ""),
+                    "used Program object -> %s, freshly built identical program -> %s (or a different state)" % (brief(b), brief(c))))
+    return out, fp0
+
+
+# ---- Gate.decompose
+DECOMP = {"Xgate": [0.4], "Zgate": [-0.3], "Pgate": [0.5], "MZgate": [0.3, 0.7], "sMZgate": [0.3, 0.7], "S2gate": [0.4, 0.2],
+          "CXgate": [0.5], "CZgate": [0.5], "Fouriergate": []}
+
+
+def dec_seq(seq):
+    return [[type(c.op).__name__, [repr(sfgen.spec_of_program(type("X", (), {"circuit": [c]}))[0][1])], [r.ind for r in c.reg], bool(c.op.dagger)] for c in seq]
+
+
 def decompose_correspondence(ctx):
-    pass
+    """Gate.decompose on the implementation vs the model's decompose_ids (flip every product once, reverse)."""
+    prog = sf.Program(2)
+    cases = []
+    for name, ps in sorted(DECOMP.items()):
+        cls = getattr(ops, name)
+        nm = cls.ns
+        reg = [prog.reg_refs[i] for i in range(nm)]
+        g = cls(*ps)
+        plain = dec_seq(g.decompose(reg))
+        plain2 = dec_seq(g.decompose(reg))
+        gh = g.H
+        dag = dec_seq(gh.decompose(reg))
+        dag2 = dec_seq(gh.decompose(reg))
+        cases.append((name, plain, dag))
+        if plain != plain2 or dag != dag2:
+            ctx.counterexample("decompose:not-repeatable:" + name, "decomposing %s twice gives different sequences" % name,
+                               {"check": "decompose", "name": name})
+        if g.dagger or not gh.dagger or g.p is not gh.p:
+            ctx.counterexample("decompose:changed-the-gate:" + name, "decompose changed the gate object itself", {"check": "decompose", "name": name})
+    lines = ["From Coq Require Import List Bool Arith.", "Import ListNotations.", "From SFV Require Import C09.Model.",
+             "Definition cases : list (list bool) := " + coq.coq_list([coq.coq_list([coq.coq_bool(c[3]) for c in plain]) for _, plain, _ in cases]) + ".",
+             "Eval vm_compute in map (fun d => let r := decompose_ids true d (seq 0 (length d)) in map (fun i => (i, nth i (fst r) false)) (snd r)) cases."]
+    ok, vals, raw = ctx.coq_eval("cases_decompose", "\n".join(lines))
+    if not ok:
+        ctx.obligation("correspondence:decompose", False, raw)
+        return
+    bad = []
+    for (name, plain, dag), mv in zip(cases, vals[0]):
+        want = [[plain[i][0], plain[i][1], plain[i][2], bool(f)] for i, f in mv]
+        ctx.case({"decompose": name, "plain": plain, "dagger": dag}, nontrivial=len(plain) >= 2, bucket="decompose")
+        if want != dag:
+            bad.append(name)
+            ctx.counterexample("decompose:dagger:" + name,
+                               "%s.H decomposes into %s, expected the reversed sequence with every flag flipped once %s" % (name, dag, want),
+                               {"check": "decompose", "name": name})
+    ctx.traces += len(cases)
+    ctx.obligation("correspondence:decompose", not bad, "mismatch for " + ",".join(bad))
+
+
+# ---- time-domain programs
+def tdm_verdict(rng_seed, spec):
+    def build():
+        prog = sf.TDMProgram(N=spec["N"])
+        with prog.context(spec["a"], spec["b"]) as (p, q):
+            ops.Sgate(spec["r"], 0) | q[-1]
+            if spec["N"] >= 2:
+                ops.BSgate(p[0]) | (q[-2], q[-1])
+            ops.Rgate(p[1]) | q[-1]
+            ops.MeasureHomodyne(p[1]) | q[0]
+        return prog
+
+    def run(prog, eng):
+        np.random.seed(rng_seed)
+        return np.array(eng.run(prog, shots=spec["shots"]).samples)
+
+    P = build()
+    text0 = (str([str(c) for c in P.circuit]), repr(P.tdm_params), P.is_unrolled)
+    s1 = run(P, sf.Engine("gaussian"))
+    text1 = (str([str(c) for c in P.circuit]), repr(P.tdm_params), P.is_unrolled)
+    if text0 != text1:
+        return ("tdm:program-changed-by-run", "TDMProgram differs after Engine.run: %s -> %s" % (text0, text1))
+    eng = sf.Engine("gaussian")
+    s2 = run(P, eng)
+    eng.reset()
+    s3 = run(P, eng)
+    s4 = run(build(), sf.Engine("gaussian"))
+    for nm, s in (("rerun", s2), ("after-reset", s3), ("fresh-program", s4)):
+        if s.shape != s1.shape or not np.allclose(s, s1, atol=1e-9):
+            return ("tdm:" + nm + "-differs", "TDM samples differ between the first run and %s" % nm)
+    return None
 
 
 def search(ctx):
-    pass
+    rng = ctx.rng
+    np.random.seed(ctx.seed)
+    # corpus first
+    for f in sorted(glob.glob(os.path.join(coq.VERIF, "corpus", "C09-*.json"))):
+        d = json.load(open(f)).get("data", {})
+        if d.get("check") in ("compose", "reset", "untouched", "tdm"):
+            for sig, text in search_eval(d):
+                ctx.counterexample(sig, text, d)
+    weights = [("gaussian", 0.65), ("fock", 0.2), ("bosonic", 0.15)]
+
+    def pick():
+        r = rng.random()
+        acc = 0
+        for b, w in weights:
+            acc += w
+            if r < acc:
+                return b
+        return "gaussian"
+
+    for _ in range(ctx.budget(60, 700)):
+        spec = gen_compose(rng, pick())
+        d = {"check": "compose", "spec": spec}
+        out = compose_patterns(spec)
+        v = compose_verdict(spec, out)
+        ctx.case({"compose": spec, "A": brief(out["A"]), "C": brief(out["C"])}, nontrivial=len(spec["segs"][1]) > 0,
+                 bucket="compose:%s:%s" % (spec["backend"], "+".join(spec["feat"]) or "plain"))
+        if v:
+            ctx.counterexample(v[0], v[1], d)
+    for _ in range(ctx.budget(30, 350)):
+        spec = gen_reset(rng, pick())
+        v = reset_verdict(spec)
+        ctx.case({"reset": spec}, nontrivial=True, bucket="reset:" + spec["backend"])
+        if v:
+            ctx.counterexample(v[0], v[1], {"check": "reset", "spec": spec})
+    for _ in range(ctx.budget(60, 700)):
+        spec = gen_untouched(rng, pick())
+        vs, _ = untouched_verdicts(spec)
+        ctx.case({"untouched": spec}, nontrivial=bool(spec["fail"] or spec["precompile"] or spec["sibling"] or
+                                                        any("same_as" in c[4] or c[3] for c in spec["cmds"])),
+                 bucket="untouched:%s:%s" % (spec["backend"], spec["fail"] or "ok"))
+        for sig, text in vs:
+            ctx.counterexample(sig, text, {"check": "untouched", "spec": spec})
+    for k in range(ctx.budget(3, 20)):
+        N = rng.randint(1, 3)
+        T = rng.randint(2, 4)
+        spec = {"N": N, "a": [round(rng.uniform(0, 1.5), 3) for _ in range(T)], "b": [round(rng.uniform(0, 1.5), 3) for _ in range(T)],
+                "r": round(rng.uniform(0.1, 0.8), 3), "shots": rng.randint(1, 2)}
+        try:
+            v = tdm_verdict(ctx.seed + k, spec)
+        except Exception as e:  # noqa: BLE001
+            v = ("tdm:raises:" + type(e).__name__, "TDM session raised %r" % e)
+        ctx.case({"tdm": spec}, nontrivial=True, bucket="tdm")
+        if v:
+            ctx.counterexample(v[0], v[1], {"check": "tdm", "spec": spec, "seed": ctx.seed + k})
+
+
+def search_eval(d):
+    """Re-evaluate one search case; list of (signature, text) violations."""
+    if d["check"] == "compose":
+        v = compose_verdict(d["spec"], compose_patterns(d["spec"]))
+        return [v] if v else []
+    if d["check"] == "reset":
+        v = reset_verdict(d["spec"])
+        return [v] if v else []
+    if d["check"] == "untouched":
+        return untouched_verdicts(d["spec"])[0]
+    if d["check"] == "tdm":
+        v = tdm_verdict(d.get("seed", 0), d["spec"])
+        return [v] if v else []
+    return []
 
 
 def replay(ctx, data):
@@ -582,8 +1156,12 @@ def replay(ctx, data):
                 dd = compare_obs(m, i, u)
                 print("call %d: outcome impl=%s model=%s%s" % (k, i["err"], m["err"], "" if dd is None else "  DIFF in " + dd))
         return bad
-    return search_replay(ctx, d)
-
-
-def search_replay(ctx, d):
-    return False
+    if d.get("check") == "decompose":
+        before = len(ctx.issues)
+        decompose_correspondence(ctx)
+        return len(ctx.issues) > before
+    vs = search_eval(d)
+    for sig, text in vs:
+        print("%s: %s" % (sig, text))
+    want = data.get("signature")
+    return any(sig == want for sig, _ in vs) if want and vs else bool(vs)
